@@ -803,7 +803,11 @@ def row_viols(name, g, e, fahrenheit, ctx, thermal):
             continue
         if thermal and not fahrenheit and rescaled(gv, ev):
             mech = "thermal_trip_point_rescaled"
-        elif zero:
+        elif zero and ((ghi is not None and ghi == gcr) or
+                       (gv is None and ev == 0 and (gcr if fld == "high" else ghi) == 0)):
+            # the recorded finding: a threshold of exactly 0 is falsy, so it is overwritten with the other one - the row
+            # then carries the same figure twice - or, when the 0 is the only threshold, it is not copied into the missing
+            # one. Any other wrong figure in a row with a 0 threshold is a different defect
             mech = "zero_threshold_treated_as_missing" + sfx
         else:
             mech = ("thermal_threshold_wrong" if thermal else "temp_threshold_wrong") + sfx
